@@ -270,6 +270,98 @@ Proof.
     + rewrite map_id. exact Cx'.
 Qed.
 
+(* ---- Richardson ---- *)
+Definition RelRi (w : wri) (st : ri_st) : Prop :=
+  (shape (v_x w) /\ shape (v_r w)) /\
+  (concat (v_x w) = i_x st /\ concat (v_r w) = ri_r (i_ws st)) /\
+  (v_res w = repeat (i_res st) n /\ v_it w = repeat (i_it st) n).
+
+Lemma wri_step_rel damping Fs w st : shape Fs -> RelRi w st ->
+  RelRi (wri_step Aw Pw damping Fs w) (ri_step Aser Pser damping (concat Fs) st).
+Proof.
+  intros SF [[Sx Sr] [[Cx Cr] [R3 R4]]]. unfold wri_step, ri_step.
+  destruct (HP (v_r w) Sr) as [Sss Css]. rewrite Cr in Css.
+  remember (Pw (v_r w)) as ss eqn:Ess.
+  destruct (axpby_world damping s1 ss (v_x w) (shape_leneq _ _ Sss Sx)) as [E1 E2].
+  rewrite Css, Cx in E1.
+  remember (map (fun sx : vec * vec => k_axpby damping (fst sx) s1 (snd sx)) (combine ss (v_x w))) as xs eqn:Exs.
+  assert (Sxs : shape xs) by (unfold shape; rewrite E2; exact Sss).
+  destruct (HA xs Sxs) as [SAx CAx]. rewrite E1 in CAx.
+  destruct (residual_world Fs (Aw xs) (shape_leneq _ _ SAx SF)) as [Er1 Er2]. rewrite CAx in Er1.
+  remember (map2 k_residual Fs (Aw xs)) as rs eqn:Ers.
+  assert (Srs : shape rs) by (unfold shape; rewrite Er2; exact SF).
+  unfold RelRi. cbn [v_x v_r v_s v_res v_it i_x i_ws i_res i_it ri_r ri_s].
+  repeat split; try assumption.
+  - rewrite dist_norm_world by assumption. rewrite Er1. reflexivity.
+  - rewrite R4. apply map_repeat'.
+Qed.
+
+Lemma wri_loop_rel damping Fs maxiter eps : shape Fs -> forall fuel w st, RelRi w st -> (i_it st + fuel)%nat = maxiter ->
+  exists w', wri_loop Aw Pw damping Fs maxiter (repeat eps n) fuel w = Some w' /\
+             RelRi w' (ri_loop Aser Pser damping (concat Fs) eps fuel st).
+Proof.
+  intro SF. induction fuel as [|k IH]; intros w st HR Hf; simpl.
+  - exists w. split; [reflexivity | exact HR].
+  - assert (Ec : wri_conts maxiter (repeat eps n) w = repeat (Nat.ltb (i_it st) maxiter && sltb eps (sabs (i_res st))) n).
+    { destruct HR as [_ [_ [R3 R4]]]. unfold wri_conts. rewrite R3, R4, combine_repeat, map2_repeat_repeat. reflexivity. }
+    rewrite Ec.
+    replace (Nat.ltb (i_it st) maxiter) with true by (symmetry; apply Nat.ltb_lt; lia).
+    simpl andb. rewrite !forallb_repeat by exact Hn.
+    destruct (sltb eps (sabs (i_res st))); simpl.
+    + apply IH; [apply wri_step_rel; assumption | simpl; lia].
+    + exists w. split; [reflexivity | exact HR].
+Qed.
+
+Theorem wri_run_spec prm (Fs Xs0 junk_s : list vec) (sjunk : ri_ws) :
+  shape Fs -> shape Xs0 ->
+  exists r res,
+    fst (richardson Aser Pser prm (concat Fs) (concat Xs0) sjunk) = KOk r /\
+    wri_run Aw Pw prm Fs Xs0 junk_s = Some res /\
+    map (@k_it S) res = repeat (k_it r) n /\
+    map (@k_res S) res = repeat (k_res r) n /\
+    shape (map (@k_x S) res) /\
+    concat (map (@k_x S) res) = k_x r.
+Proof.
+  intros SF SX.
+  unfold wri_run, richardson. rewrite (w_prologue_world prm Fs SF).
+  destruct (k_prologue norm_a prm (concat Fs)) as [nr|nr] eqn:Hpro.
+  - rewrite !forallb_repeat by exact Hn. simpl.
+    rewrite map2_repeat_l by (apply shape_len; exact SX). simpl.
+    destruct (clear_world Xs0) as [E1 E2].
+    eexists. eexists. split; [reflexivity|]. split; [reflexivity|].
+    rewrite !map_map. simpl.
+    repeat split.
+    + rewrite map_const, (shape_len _ SX). reflexivity.
+    + rewrite map_const, (shape_len _ SX). reflexivity.
+    + unfold shape. change (map (fun x => k_clear x) Xs0) with (map k_clear Xs0). rewrite E2. exact SX.
+    + change (map (fun x => k_clear x) Xs0) with (map k_clear Xs0). exact E1.
+  - rewrite !forallb_repeat by exact Hn. simpl.
+    rewrite map_repeat'. simpl pro_val. rewrite !map_repeat'.
+    set (eps := smax (p_tol prm * nr) (p_abstol prm)).
+    destruct (HA Xs0 SX) as [SAx CAx].
+    destruct (residual_world Fs (Aw Xs0) (shape_leneq _ _ SAx SF)) as [Er1 Er2].
+    assert (Srs : shape (map2 k_residual Fs (Aw Xs0))) by (unfold shape; rewrite Er2; exact SF).
+    rewrite CAx in Er1.
+    match goal with |- context [wri_loop Aw Pw ?d ?f ?mi ?es ?fu ?W] => remember W as w0 eqn:Ew0 end.
+    match goal with |- context [ri_loop Aser Pser ?d ?f ?e ?fu ?W] => remember W as st0 eqn:Est0 end.
+    assert (HR : RelRi w0 st0).
+    { subst w0 st0. unfold RelRi. cbn. repeat split; try assumption.
+      rewrite dist_norm_world by exact Srs. rewrite Er1. reflexivity. }
+    destruct (wri_loop_rel (p_damping prm) Fs (p_maxiter prm) eps SF (p_maxiter prm) w0 st0 HR) as [w' [Hl HR']];
+      [rewrite Est0; reflexivity|].
+    rewrite Hl.
+    destruct HR' as [[Sx' _] [[Cx' _] [R3 R4]]].
+    eexists. eexists. split; [reflexivity|]. split; [reflexivity|].
+    rewrite R3, R4, !combine_repeat.
+    rewrite map2_repeat_l by (apply shape_len; exact Sx').
+    rewrite !map_map. simpl.
+    repeat split.
+    + rewrite map_const, (shape_len _ Sx'). reflexivity.
+    + rewrite map_const, (shape_len _ Sx'). reflexivity.
+    + rewrite map_id. exact Sx'.
+    + rewrite map_id. exact Cx'.
+Qed.
+
 End Lifted.
 
 (* ------------------------------------------------------------------ *)
